@@ -1,5 +1,5 @@
 """Which bundles / engines decide which property (the fixed properties are in /verif/properties.jsonl)."""
-from . import attack, hashl, evaluation, draw, rules, targets, succ, castle, top, ucimove, closure
+from . import attack, hashl, evaluation, draw, rules, targets, succ, castle, top, ucimove, closure, fenpiece
 
 WL_ATTACK = ['external_body:axiom_i8_add_assign_ref', 'assume_specification:i8::abs']
 TB_COMMON = [
@@ -23,6 +23,10 @@ def b_hash(g):
 
 def b_eval(g):
     attack.build(g); evaluation.build(g)
+
+
+def b_fenpiece(g):
+    attack.build(g); fenpiece.build(g)
 
 
 def b_draw(g):
@@ -70,13 +74,18 @@ KANI_C04 = K.make_engine({'uci.rs': 'uci_harness.rs'}, [],
                           {'name': 'c04_text_corner_h1', 'timeout': 3000, 'what': 'str::contains("h1") <=> the move starts or ends on h1 (text_facts corner conjunct)'},
                           {'name': 'c04_text_castle_strings', 'timeout': 3000, 'what': 'equality with the four castling strings (text_facts conjuncts 9-12)'}])
 
+KANI_PRINT = K.make_engine({'board.rs': 'board_text_harness.rs'}, [],
+                           [{'name': 'c02_point_text_roundtrip', 'timeout': 1500, 'what': 'for all 64 on-board points: Display text is [a-h][1-8] naming the square and parses back to the point (the text printed as bestmove)'},
+                            {'name': 'c02_promotion_letters', 'timeout': 600, 'what': 'PieceKind::alg prints q n b r for the four promotion kinds'}])
+
+
 def CROSS(what):
     return {'run': H.make_bounded_engine('cross-check on the unchanged tree: ' + what, 'seeded random: curated + random legal positions, random walks by the oracle', 0, 240), 'tier': 'thorough'}
 
 
 PROPS = {
     'C09': {
-        'engines': [{'run': KANI_C09}],
+        'engines': [{'run': KANI_C09}, {'run': H.make_bounded_engine('go-line routing: parse_go_command puts every clock/increment/movestogo token into its own field whatever the order and whatever unknown tokens surround it; the resulting slice obeys the contract', 'seeded random go lines (0-5 fields, random order, unknown tokens interleaved) plus a value grid for calculate_time_slice', 6, 120)}],
         'whitelist': [], 'trusted_base': ['Kani 0.68 + CBMC 6.11 (bit-precise incl. IEEE-754 f64) + CaDiCaL', 'rustc; the scratch crate is /repo/src plus appended cfg(kani) modules and inserted contract attributes'],
         'dropped': ['everything except time_control.rs::GameTime::calculate_time_slice'],
         'explanation': 'Kani function contract on the real calculate_time_slice, proved loop-free over the full input domain',
@@ -85,8 +94,9 @@ PROPS = {
                         'parse_go_command token routing (string code)', 'actual go->bestmove delay equals the plan (wall clock, threads)'],
     },
     'C15': {
+        'verus': [{'name': 'fenpiece', 'build': b_fenpiece, 'rlimit': 30, 'units_filter': lambda u: u == 'BoardState::piece_from_fen_string_char'}],
         'engines': [{'run': KANI_C15}, {'run': H.make_bounded_engine('from_fen: never panics on mutated FEN text; every well-formed FEN of a legal position (oracle-generated, counters up to 65535) loads to exactly that position with its from-scratch key', 'seeded random: curated + random legal positions x 8 counter pairs, and 1-3 random edits of each text', 15, 240)}],
-        'whitelist': [], 'trusted_base': ['Kani 0.68 + CBMC 6.11 + CaDiCaL', 'rustc; scratch crate = /repo/src + appended cfg(kani) module'],
+        'whitelist': WL_ATTACK, 'trusted_base': ['Kani 0.68 + CBMC 6.11 + CaDiCaL', 'rustc; scratch crate = /repo/src + appended cfg(kani) module'],
         'dropped': ['everything except board.rs::<Point as FromStr>::from_str'],
         'explanation': 'loop-bounded-by-input-length harness over all <=4-byte UTF-8 strings for the en-passant-square parser',
         'assumptions': [],
@@ -100,13 +110,13 @@ PROPS = {
     },
     'C04': {
         'verus': [UCI],
-        'engines': [{'run': KANI_C04}, {'run': H.make_bounded_engine('play_out_position glue and make_move on real text: for every oracle-legal move of each position make_move(text) gives the position/key the rules give; every generated successor printed and replayed reproduces itself; whole `position ... moves ...` commands replayed', 'seeded random: curated + random legal positions, random walks, random games up to 24 moves', 15, 300)}],
+        'engines': [{'run': KANI_PRINT}, {'run': KANI_C04}, {'run': H.make_bounded_engine('play_out_position glue and make_move on real text: for every oracle-legal move of each position make_move(text) gives the position/key the rules give; every generated successor printed and replayed reproduces itself; whole `position ... moves ...` commands replayed', 'seeded random: curated + random legal positions, random walks, random games up to 24 moves', 15, 300)}],
         'whitelist': WL_UCI, 'trusted_base': TB_COMMON, 'dropped': DROPPED_COMMON,
         'explanation': 'wip', 'assumptions': [], 'not_decided': [],
     },
     'C02': {
         'verus': [MOVEGEN],
-        'engines': [CROSS('every successor of generate_moves (both modes, chains of depth 2) == oracle apply(move); printed text == move')],
+        'engines': [{'run': KANI_PRINT}, CROSS('every successor of generate_moves (both modes, chains of depth 2) == oracle apply(move); printed text == move')],
         'whitelist': WL_MOVEGEN, 'trusted_base': TB_COMMON, 'dropped': DROPPED_COMMON,
         'explanation': 'wip', 'assumptions': [], 'not_decided': [],
     },
